@@ -31,7 +31,8 @@ def parse_bad(out, tag):
 
 def tv_run(prop, tier, replay_path, *, harness_dirs, pkg, test, trace_module, tag, batches,
            env_of, cfg_extra="", mc=(), level="model_checking", what, sig_of=None,
-           assumptions=(), build_name=None, stats_tag=None, samples_keep=6, race=False, owns=None, merge_into_existing=False, sig_ctx=None, max_workers=14):
+           assumptions=(), build_name=None, stats_tag=None, samples_keep=6, race=False, owns=None, merge_into_existing=False, sig_ctx=None, max_workers=14,
+           panic_ok=False, mc_deadlock=True, mc_expect_violation=(), drift_tag=None, count_tag=None, extra_cov=None, traces_of=None):
     """batches: list of dicts (per-batch parameters); env_of(batch, seed, out) -> env for the driver."""
     t0 = time.time()
     seed = env_seed()
@@ -49,7 +50,18 @@ def tv_run(prop, tier, replay_path, *, harness_dirs, pkg, test, trace_module, ta
             k, b = k_b
             out = scr.path("traces", "t%d.ndjson" % k)
             rc, o = run_test_binary(binary, "^%s$" % test, env=env_of(b, seed, out), timeout=3000)
-            if rc != 0 or not os.path.exists(out):
+            if rc != 0 and panic_ok and os.path.exists(out):
+                # the code under test panicked and took the process down: the driver flushed a
+                # Panic event first; judge the (truncated) trace
+                with open(out) as fh:
+                    data = fh.read()
+                if '"ev":"Panic"' not in data:
+                    raise Inconclusive("driver %s failed (rc=%d):\n%s" % (test, rc, o[-3000:]))
+                data = data[:data.rfind("\n") + 1]
+                with open(out, "w") as fh:
+                    fh.write(data)
+                log("driver died after a Panic event of the code under test; judging the trace up to it")
+            elif rc != 0 or not os.path.exists(out):
                 raise Inconclusive("driver %s failed (rc=%d):\n%s" % (test, rc, o[-3000:]))
             stats = {}
             if stats_tag:
@@ -67,6 +79,17 @@ def tv_run(prop, tier, replay_path, *, harness_dirs, pkg, test, trace_module, ta
             pr = parse_bad(res.out, tag)
             if pr is None or res.error or res.violated:
                 raise Inconclusive("TLC failed on batch %d: %s\n%s" % (k, res.error or res.violated, res.out[-3000:]))
+            if drift_tag:
+                dr = parse_bad(res.out.replace('"%s",' % drift_tag, '"%s", 0,' % drift_tag), drift_tag)
+                for (dt, di, dop, df) in (dr[1] if dr else []):
+                    print("DRIFT property=%s %s: trace %d event %d: the implementation left the specification (%s {%s}); "
+                          "not a verdict" % (prop, test, dt, di, dop, df), flush=True)
+            if count_tag:
+                m = re.search(r'"%s",\s*\[(.*?)\]' % count_tag, " ".join(res.out.split()))
+                if m:
+                    for kv in m.group(1).split(","):
+                        a, v = kv.split("|->")
+                        stats["tlc_" + a.strip()] = int(v)
             return b, out, stats, pr, res.distinct
 
         results = []
@@ -96,9 +119,10 @@ def tv_run(prop, tier, replay_path, *, harness_dirs, pkg, test, trace_module, ta
                     for l in fh:
                         if l.startswith('{"t":%d,' % t):
                             lines.append(json.loads(l))
+                pos = next((k for k, x in enumerate(lines) if x.get("i") == i), min(i, len(lines) - 1))
                 rp = save_replay(prop, "%s-s%d-t%d.json" % (test, seed, t),
                                  {"kind": test, "seed": seed, "batch": b, "trace": t, "at": i, "op": op,
-                                  "fields": fields, "events": lines[max(0, i - 15):i + 1]})
+                                  "fields": fields, "events": lines[max(0, pos - 25):pos + 1]})
                 if sig_ctx:
                     sig = sig_ctx(op, fields, lines, i)
                 else:
@@ -110,7 +134,7 @@ def tv_run(prop, tier, replay_path, *, harness_dirs, pkg, test, trace_module, ta
         if not replay_path:
             for (module, cfgname, timeout, workers) in mc:
                 res = run_tlc(scr, module, os.path.join(SPEC, cfgname), workers=workers, timeout=timeout,
-                              tag="mc." + cfgname, jvm=["-Xmx8g"])
+                              tag="mc." + cfgname, jvm=["-Xmx8g"], deadlock=mc_deadlock)
                 if res.error == "timeout":
                     mc_runs.append({"cfg": cfgname, "distinct": res.distinct, "generated": res.generated,
                                     "complete": False, "wall_s": round(res.wall, 1)})
@@ -123,7 +147,19 @@ def tv_run(prop, tier, replay_path, *, harness_dirs, pkg, test, trace_module, ta
                                     "depth": res.depth, "complete": True, "wall_s": round(res.wall, 1)})
                 states += res.distinct
                 transitions += res.generated
+            for (module, cfgname, inv) in mc_expect_violation:
+                # vacuity checks: a deliberately broken model / an "everything is fine" invariant
+                # MUST be refuted by TLC, otherwise the specification constrains nothing
+                res = run_tlc(scr, module, os.path.join(SPEC, cfgname), workers=4, timeout=300,
+                              tag="mcv." + cfgname, jvm=["-Xmx4g"], deadlock=mc_deadlock)
+                if res.violated != inv:
+                    raise Inconclusive("vacuity check %s/%s: expected TLC to refute %s, got %s %s"
+                                       % (module, cfgname, inv, res.violated, res.error))
+                mc_runs.append({"cfg": cfgname, "expected_counterexample": inv, "found": True,
+                                "wall_s": round(res.wall, 1)})
         traces = sum(b.get("traces", 1) for b, *_ in results)
+        if traces_of:
+            traces = traces_of(stats_all, traces)
         cov = {
             "states": max(1, states + events),
             "transitions": max(1, transitions + events),
@@ -137,6 +173,8 @@ def tv_run(prop, tier, replay_path, *, harness_dirs, pkg, test, trace_module, ta
             "tlc_exhaustive": mc_runs,
             "exhaustive": False,
         }
+        if extra_cov:
+            cov.update(extra_cov(stats_all))
         if merge_into_existing:
             # second engine of a property whose first engine already wrote the evidence file
             p = os.path.join(os.path.dirname(SPEC), "evidence", prop + ".json")
